@@ -6,7 +6,8 @@ Mirrors
   `sqllineage/core/metadata/dummy.py`      `DummyMetaDataProvider` (truthiness `len(metadata) > 0`, :21-22)
   `sqllineage/runner.py`                   `_eval` (:185-218), the shared default argument (:41)
 and the three call sites at which an analysis consults the provider — all of them gated on `bool(provider)`:
-  `core/holders.py:174` (wildcard expansion), `core/holders.py:426` (unresolved columns, final assembly),
+  `core/holders.py:174` (wildcard expansion), `core/holders.py:426` (unresolved columns, final assembly) — line numbers of
+  the pinned commit; one line further down since the `fix:` commit 8290e64 —,
   `core/parser/sqlfluff/extractors/create_insert.py:111` (target columns of INSERT), and
   `core/parser/__init__.py:46-53` (lateral alias check; `if metadata_provider := getattr(...)` is the same gate).
 
